@@ -20,6 +20,7 @@ PROPS = {
         "assumptions": [
             "a handler section that runs under one write lock is atomic",
             "documents are workspace files (should_process = true)",
+            "handlers do not look at LSP version numbers (checked on the source by C27_version_independent; sessions send editor-style, low, equal, global and malformed versions)",
             "the main loop awaits a `sync:` handler before taking the next message (checked on the macro definition by the extractor)",
         ],
         "technique": "invariant over a step relation (remaining main-loop work applied to the store = specification); T-src dispatch lists bridged by decide; correspondence sessions against the real server",
